@@ -355,6 +355,37 @@ func (e *Env) hostileStrings(newGroup func(*c03group) int, emit func(c03exp)) {
 			}
 		}
 	}
+	// a valid sentence next to one huge token (sizes around the buffer sizes of the standard
+	// library's scanners and readers): the extra token makes the count wrong wherever it stands
+	{
+		r := rng.New(e.Seed, "C03-huge")
+		sizes := []int{4095, 4096, 4097, 65535, 65536, 65537, 70000}
+		for lang := 0; lang < ref.NLang; lang++ {
+			ss := sizes
+			if lang%5 == 0 {
+				ss = append(append([]int(nil), sizes...), 1<<20)
+				if e.Thorough() {
+					ss = append(ss, 1<<24)
+				}
+			}
+			for si, size := range ss {
+				w := sentence(r, lang, ref.EntSizes[(si+lang)%5], 0)
+				unit := []string{"a", "\u3042", "q\u0301", "\uff41"}[(si+lang)%4]
+				huge := strings.Repeat(unit, size/len(unit)+1)[:size/len(unit)*len(unit)]
+				valid := strings.Join(w, " ")
+				k := 1 + r.Intn(len(w)-1)
+				for _, x := range []string{
+					valid + " " + huge,
+					valid + " " + huge + " " + w[0],
+					valid + " " + huge + "\xff tail",
+					huge + " " + valid,
+					strings.Join(w[:k], " ") + " " + huge + " " + strings.Join(w[k:], " "),
+				} {
+					emit(c03exp{s: x, lang: lang, class: "valid-sentence-next-to-a-huge-token", group: -1})
+				}
+			}
+		}
+	}
 	// fixed oddities, every language
 	for lang := 0; lang < ref.NLang; lang++ {
 		for _, s := range []string{"", " ", "           ", strings.Repeat(" ", 23), "\x00", "\xff\xfe", strings.Repeat("a ", 12), strings.Repeat("abandon ", 12)} {
